@@ -194,6 +194,8 @@ class ClassTable:
         ks = self.known_ids()
         for k in ks:
             ax.append(ClassName(z3.IntVal(k)) == z3.StringVal(self.names[k]))
+        for const in ("True", "False", "None", "true", "false", "yes", "1", "y", "t"):
+            ax.append(Lower(z3.StringVal(const)) == z3.StringVal(const.lower()))      # str.lower on these constants
         exc = [k for k in ks if self.issub(k, self.ids["BaseException"])]
         for a in exc:
             for b in exc:
@@ -755,6 +757,7 @@ class State:
         self.ghost = {}
         self.fresh_refs = set()
         self.reg_class = {}
+        self.alloc_class = {}
         self.heap_gen = 0         # bumped by havoc-all: names of not-yet-materialised field arrays
         self.globals_store = {}  # (module, name) -> term for mutable module globals / class attrs
         for ref, (cid, m) in table.enum_by_ref.items():
@@ -798,6 +801,8 @@ class State:
             self.reg_class[rid] = cid
             return rid
         self.fresh_refs.add(rid)
+        if isinstance(cid, int):
+            self.alloc_class[rid] = cid
         self.typeof = z3.Store(self.typeof, z3.IntVal(rid), z3.IntVal(cid) if isinstance(cid, int) else cid)
         return rid
 
